@@ -593,6 +593,7 @@ type TypeContract struct {
 	Guarded   []string // fields guarded by the lock; entries "Type.field" for other structs
 	Invariant []*Clause
 	Opts      map[string]string
+	File      string
 }
 
 type ContractSet struct {
@@ -733,7 +734,7 @@ func (cs *ContractSet) loadFile(path string) error {
 		case "type":
 			curF, curA = nil, nil
 			name, _ := splitWord(rest)
-			tc := &TypeContract{Key: pkg + "." + name, Pkg: pkg, Opts: map[string]string{}}
+			tc := &TypeContract{Key: pkg + "." + name, Pkg: pkg, Opts: map[string]string{}, File: path}
 			cs.Types[tc.Key] = tc
 			curT = tc
 		case "spec":
